@@ -695,6 +695,11 @@ class Engine:
                 if vs is not None and segs[-1] in vs:
                     en = segs[-2] if self.prog.enums.get(segs[-2]) is not None or len(segs) < 3 else '::'.join(segs[-3:-1])
                     return Adt(en, vs.index(segs[-1]), segs[-1], ops)
+            if len(segs) >= 2 and segs[-2] == '__Field':
+                di = self.prog.derive_field_index(path, fr.fn.name)
+                if di is None:
+                    raise Unsupported('variant index of %s' % head)
+                return Adt('__Field', di, segs[-1], ops)
             return Adt(segs[-1], None, None, ops)
         if kind == 'struct':
             head = strip_generics(rv[2])
